@@ -11,7 +11,7 @@ import filesupport as fsup
 from props import c04, c05
 
 PROP = "C06"
-LEAN_MODULES = ["Props.C06", "Props.C06F", "Props.C06E", "Props.C05"]
+LEAN_MODULES = ["Props.C06", "Props.C06F", "Props.C06E", "Props.C06D", "Props.C05"]
 RULE = (
     "case = (register file definition with unambiguous identifiers, text content x). Contents are canonical lines "
     "perturbed by extra precision, odd spacing inside fields, right-aligned literals, explicit '+', Unicode digits, "
@@ -24,7 +24,7 @@ RULE = (
 )
 ASSUMPTIONS = c05.ASSUMPTIONS
 TRUSTED = []
-NOT_THEOREMS = ['record-level premise of Props.C06.main (every typed record parsed from x renders and is record-stable: C01 stability) — discharged for every text in Props.C06.main_int_lit (files of integer / literal registers), main_regs_F and main_regs_FE (also floats in F and E notation) and derivable from the per-field laws in general (recStable_of_laws); per case for records with date fields']
+NOT_THEOREMS = ['record-level premise of Props.C06.main (every typed record parsed from x renders and is record-stable: C01 stability) — discharged for every text in Props.C06.main_int_lit (files of integer / literal registers), main_regs_F, main_regs_FE (also floats in F and E notation) and main_regs_all (dates as well) and derivable from the per-field laws in general (recStable_of_laws); per case only for floats outside the ranges of the C01 float laws']
 EXHAUSTIVE = {"quick": False, "thorough": False}
 
 
